@@ -317,7 +317,7 @@ pub fn run(ctx: &mut Ctx) {
     for (n, ok) in r2::selftest() {
         ctx.selftest(&n, ok);
     }
-    ctx.require(&["annex_kat", "honest_keys_equal", "step2_rejects_invalid_RA", "step3_rejects", "step4_rejects", "klen=1", "klen=16", "klen=200", "kind=OffCurve", "kind=Negated", "kind=OtherPoint", "kind=BitFlipHash", "kind=PermutedHash", "kind=ConstantHash", "klen_needs_more_than_255_kdf_blocks", "honest_R_rerandomised_representation", "id_non_ascii_utf8", "key_from_gen_keypair", "key_with_jacobian_public_point", "degenerate_dA_shared_point_infinity_at_B", "degenerate_dB_shared_point_infinity_at_A", "coincident_dA_P_eq_xbarR_doubling_at_B", "coincident_dB_P_eq_xbarR_doubling_at_A", "crafted_valid_R_A", "derived_key_all_zero", "same_static_key_both_parties", "same_id_both_parties", "many_calls_one_process", "id_length_sweep", "shared_point_coordinate_leading_zero", "one_party_default_id_as_None"]);
+    ctx.require(&["annex_kat", "honest_keys_equal", "step2_rejects_invalid_RA", "step3_rejects", "step4_rejects", "klen=1", "klen=16", "klen=200", "kind=OffCurve", "kind=Negated", "kind=OtherPoint", "kind=BitFlipHash", "kind=PermutedHash", "kind=ConstantHash", "klen_needs_more_than_255_kdf_blocks", "honest_R_rerandomised_representation", "id_non_ascii_utf8", "key_from_gen_keypair", "key_with_jacobian_public_point", "degenerate_dA_shared_point_infinity_at_B", "degenerate_dB_shared_point_infinity_at_A", "coincident_dA_P_eq_xbarR_doubling_at_B", "coincident_dB_P_eq_xbarR_doubling_at_A", "crafted_valid_R_A", "derived_key_all_zero", "same_static_key_both_parties", "same_id_both_parties", "many_calls_one_process", "id_length_sweep", "shared_point_coordinate_leading_zero", "one_party_default_id_as_None", "same_ephemeral_both_parties"]);
     for s in 0..16 {
         ctx.required.push(format!("subset={:04b}", s));
     }
@@ -503,7 +503,7 @@ pub fn run(ctx: &mut Ctx) {
             2 => 200,
             3 => 32,
             4 => 33,
-            7 if i % 20 == 7 => [255usize, 256, 8160, 8161, 8193, 70_000, 2_100_000][((i / 20) % 7) as usize],
+            7 if i % 20 == 7 => [255usize, 256, 8160, 8161, 8193, 70_000, 2_100_000, (1 << 24) + 1][((i / 20) % 8) as usize],
             _ => p.range(1, 200),
         };
         ctx.class(&format!("klen={}", klen));
@@ -538,6 +538,12 @@ pub fn run(ctx: &mut Ctx) {
         if i % 50 == 29 || i % 50 == 41 {
             case.idb = case.ida.clone();
             ctx.class("same_id_both_parties");
+        }
+        // both parties happen to draw the same ephemeral scalar (R_B = R_A): an honest run like any other
+        if i % 50 == 21 {
+            case.rb = case.ra.clone();
+            case.subset = 0;
+            ctx.class("same_ephemeral_both_parties");
         }
         // exactly one party (or both) uses the default ID, handed to the API as `None`
         if i % 50 == 17 || i % 50 == 47 {
